@@ -218,7 +218,7 @@ Consistent(c, o) ==
   LET g == CtorGeom(c) IN
   /\ o.wells = IdArray(g)
   /\ o.shape = <<IdRows(g), g.cols>>
-  /\ o.nidx = NIds(g)
+  /\ o.nidx = NIds(g) /\ Len(o.idx) = NIds(g)
   /\ \A k \in 1..NIds(g) : o.idx[k] = RealRC(g, <<(k - 1) \div g.cols, (k - 1) % g.cols>>)
   /\ o.volshape = <<g.rows, g.cols>>
   /\ o.finite
